@@ -294,13 +294,14 @@ func init() {
 		ID:    "C17",
 		Level: "exploration",
 		Rule: "systematic part: every hand-picked host (8 names around each of 40 public suffixes of every PSL class, the hostile vocabulary, IPv4, single labels) x 3 port forms x 19 paths x 11 queries x with/without fragment x 3 source situations; sampled part: per case 16 URL requests scheme://host[:port] followed by nothing, /path or ?query (paths and queries containing //, :, ?, @), optionally with #fragment (never directly after the host), no userinfo, hosts from every PSL class (ICANN multi-level, wildcard and exception rules, private suffixes, unlisted TLDs, IPv4, single labels) and the 58 k hosts of testdata/hosts, sometimes mixed-case or longer than 4 KiB, with an empty, same-site or foreign source URL; plus 8 NewRequestForHostname calls and the real URLs of testdata/requests.json; " +
+			"whole-list part: every one of the 9 105 rules of the Public Suffix List as compiled into x/net (suffix, 1..3 labels below, star and exception instances) as hostname and URL requests and as two sites asking each other; " +
 			"oracle = net/url + publicsuffix.EffectiveTLDPlusOne, third-party symmetry under swapping; non-trivial = request whose registrable domain differs from its host or that is third-party; distinct by (url, source)",
 		Assumptions: []string{
 			"URLs that net/url rejects are outside the contract (counted inconclusive)",
 			"hostnames for NewRequestForHostname are lower-case and have no empty labels",
 		},
 		Setup: c17Setup,
-		Cases: func(t core.Tier) int { return len(gen.PSLHosts()) + len(gen.Hosts) + 9 + sizes[t] },
+		Cases: func(t core.Tier) int { return len(gen.PSLHosts()) + len(gen.Hosts) + 9 + c17PSLBatches() + sizes[t] },
 		Run: func(c *core.Ctx, idx int) {
 			corp := gen.LoadCorpus(c.Env.RepoDir)
 			if idx < c17Systematic {
@@ -324,6 +325,11 @@ func init() {
 				}
 				c17CheckHostname(c, strings.ToLower(h))
 				c.Event("systematic_hosts", 1)
+
+				return
+			}
+			if b := idx - c17Systematic; b < c17PSLBatches() {
+				c17WholePSL(c, b)
 
 				return
 			}
@@ -359,6 +365,42 @@ func init() {
 			}
 		},
 	})
+}
+
+const c17PSLBatch = 48
+
+func c17PSLBatches() int {
+	return (len(gen.PSLRules()) + c17PSLBatch - 1) / c17PSLBatch
+}
+
+// c17WholePSL walks one batch of the rules of the Public Suffix List: for
+// every rule the suffix itself and names one, two and three labels below it
+// (for a wildcard rule with an arbitrary label in place of the star, for an
+// exception rule the excepted name), as hostname requests, as URL requests and
+// as two sites under the same suffix asking each other.
+func c17WholePSL(c *core.Ctx, b int) {
+	all := gen.PSLRules()
+	for i := b * c17PSLBatch; i < (b+1)*c17PSLBatch && i < len(all); i++ {
+		r := all[i]
+		var names []string
+		switch {
+		case strings.HasPrefix(r, "*."):
+			rest := r[2:]
+			names = []string{rest, "any." + rest, "a.any." + rest, "b.a.any." + rest, "a.other." + rest}
+		case strings.HasPrefix(r, "!"):
+			ex := r[1:]
+			names = []string{ex, "a." + ex, "b.a." + ex}
+		default:
+			names = []string{r, "a." + r, "b.a." + r, "c.b.a." + r, "alice." + r, "x.alice." + r}
+		}
+		for k, h := range names {
+			c17CheckHostname(c, h)
+			c17CheckRequest(c, "https://"+h+"/p?q=1", "")
+			c17CheckRequest(c, "https://"+h+"/", "http://"+names[(k+1)%len(names)]+"/page")
+			c17CheckRequest(c, "http://bob."+h+"/x.js", "https://"+names[len(names)-1]+"/")
+		}
+		c.Event("public_suffix_rules_walked", 1)
+	}
 }
 
 func c17Hierarchical(u string) bool {
